@@ -387,6 +387,9 @@ def gen_save(rng, mode, allow_both_jpegs=True):
             fmts = fmts + extra
         save.append([b, fmts])
     if rng.random() < 0.4:
+        if len(save) == 1:  # a second bucket, so that the repeated entries can be separated
+            other_b = rng.choice([x for x in BUCKETS if x != save[0][0]])
+            save.append([other_b, rng.sample(LOSSLESS, rng.choice([1, 2]))])
         # the same bucket requested by several entries of the save list (each format still once per bucket):
         # split the formats of some buckets over two or three entries, adjacent or separated by other buckets
         split = []
